@@ -28,6 +28,14 @@ func init() {
 						{Name: "a1", Ops: rec},
 						{Name: "z1", Ops: []Op{{Op: "rootclose"}}},
 					}}})
+				// "while a periodic report pass is part-way through the registry": the pass has reported one metric of the root and
+				// not yet the next when the application records on the first again and calls Close
+				out = append(out, scenarioSet{mode: "dfs", maxExec: 8000, sc: &Scenario{
+					Name: name + "-midpass", Reporter: rep, Closer: closer, CloseErr: closer, Loop: true, MaxTicks: 1,
+					Points: []string{"op_inc", "op_rootclose", "rl_tick", "rp_counter", "cl_cas", "cl_report"},
+					Threads: []ThreadSpec{
+						{Name: "a1", Ops: []Op{{Op: "inc", H: "root", M: "r", V: 1}, {Op: "inc", H: "root", M: "q", V: 1}, {Op: "inc", H: "root", M: "r", V: 4}, {Op: "rootclose"}}},
+					}}})
 				// two concurrent Close callers, second Close afterwards, scopes obtained after Close, recording on old handles: random over all points
 				n := 250
 				if thorough {
@@ -116,6 +124,14 @@ func init() {
 					Threads: []ThreadSpec{{Name: "a1", Ops: first}, {Name: "a2", Ops: second}},
 				}})
 			}
+			// a child scope that was used and closed is asked for again by two goroutines at the same moment: same scope for
+			// both, everything recorded through either handle is delivered
+			out = append(out, scenarioSet{mode: "dfs", maxExec: 2500, sc: &Scenario{
+				Name: "c09-reacquire-closed-" + rep, Reporter: rep, Shards: 1, Points: []string{"op_sub", "op_close", "ss_rlock", "ss_lock", "ss_found_check", "op_inc", "op_pass"},
+				Threads: []ThreadSpec{
+					{Name: "a1", Ops: []Op{{Op: "sub", H: "k", Name: "x"}, {Op: "inc", H: "k", M: "c", V: 1}, {Op: "close", H: "k"}, {Op: "sub", H: "k", Name: "x"}, {Op: "inc", H: "k", M: "c", V: 2}}},
+					{Name: "a2", Ops: []Op{{Op: "sub", H: "k", Name: "x"}, {Op: "inc", H: "k", M: "c", V: 4}}},
+				}}})
 			// three goroutines, two names, all kinds, sub-scope creation, recorder on an existing metric, loop: random over all points
 			n := 300
 			if thorough {
